@@ -30,7 +30,8 @@ def build(case):
     for i, (lat, lon) in enumerate((case["p0"], case["p1"])):
         yz, xz, rlat, _, _ = cpr.encode(lat, lon, i, True)
         me = cpr.me_surface(case["tc"][i], case["mov"], case["trk"] >> 7, case["trk"] & 127, case["tbit"], i, yz, xz)
-        out.append(("%028X" % bits.es_frame(case["df"], case["ca"], case["addr"], me), rlat))
+        hx = "%028X" % bits.es_frame(case["df"], case["ca"], case["addr"], me)
+        out.append((hx.lower() if case.get("lower") and (case["lower"] >> i) & 1 else hx, rlat))
     return out
 
 
@@ -151,7 +152,7 @@ def mkcase(rng, lat, lon, order=None, rx=None):
     return {"p0": [lat, lon], "p1": [lat1, lon1], "rx": rx, "tc": [rng.choice((5, 6, 7, 8)), rng.choice((5, 6, 7, 8))],
             "mov": rng.randrange(128), "trk": rng.randrange(256), "tbit": rng.randrange(2), "df": rng.choice((17, 17, 18)),
             "ca": rng.randrange(8), "addr": rng.getrandbits(24), "te": te, "to": to,
-            "api": rng.choice(("position", "surface_position"))}
+            "api": rng.choice(("position", "surface_position")), "lower": rng.choice((0, 0, 0, 0, 0, 0, 0, 1, 2, 3))}
 
 
 def cases(ctx):
